@@ -151,6 +151,18 @@ CanSign(s, h, r, st, b) ==
 Signed(s, h, r, st, b) == [s EXCEPT !.sig = [h |-> h, r |-> r, s |-> st, b |-> b]]
 
 TrackWAL == MaxCrashes > 0
+\* Durations (ms) of the step timers (state.go TimeoutParams with the configuration the replay harness sets: 3000/500, 1000/500,
+\* 1000/500, commit 1000). The model itself is untimed - a timer is armed or not - but liveness under partial synchrony
+\* (C12) rests on the waits growing without bound with the round, so the replay driver checks every ScheduleTimeout call of
+\* the real nodes against this function (csim.CheckTimeoutDurations, key oracle:timeout-duration).
+TimeoutMs(step, r) == CASE step = 3 -> 3000 + 500 * r      \* RoundStepPropose
+                        [] step = 5 -> 1000 + 500 * r      \* RoundStepPrevoteWait
+                        [] step = 7 -> 1000 + 500 * r      \* RoundStepPrecommitWait
+                        [] step = 2 -> 0                   \* RoundStepNewRound (fires at once)
+                        [] OTHER -> 1000                   \* RoundStepNewHeight: at most timeout_commit
+TimeoutsGrow == \A step \in {3, 5, 7}, r \in 0..MaxRound : TimeoutMs(step, r + 1) > TimeoutMs(step, r)
+ASSUME TimeoutsGrow
+
 StepRec(w) == IF TrackWAL THEN Append(w, <<"S">>) ELSE w     \* newStep -> wal.Save(RoundStateEvent)
 
 Mark(s, why) == IF s.bad = "ok" THEN [s EXCEPT !.bad = why] ELSE s
